@@ -478,6 +478,183 @@ def run_area_integer_fill(ctx, name, area):
         ctx.count("intfill.clouds")
 
 
+def _cells_of(area, lons, lats):
+    """exact containing cell (raveled index, -1 = outside the area) of every point, and its distance (in pixels) to the nearest cell border"""
+    from pyproj import Proj
+    W, H = area.width, area.height
+    g = [Fraction(float(v)) for v in area.area_extent]
+    with warnings.catch_warnings():
+        warnings.simplefilter("ignore")
+        px, py = Proj(area.proj_dict)(lons, lats)
+    cell, dist = [], []
+    for x, y in zip(np.asarray(px, float), np.asarray(py, float)):
+        if not (math.isfinite(x) and math.isfinite(y)):
+            cell.append(-1)
+            dist.append(0.0)
+            continue
+        a = (Fraction(float(x)) - g[0]) / (g[2] - g[0]) * W
+        b = (g[3] - Fraction(float(y))) / (g[3] - g[1]) * H
+        c, q = math.floor(a), math.floor(b)
+        cell.append(q * W + c if (0 <= c < W and 0 <= q < H) else -1)
+        dist.append(float(min(abs(a - round(a)), abs(b - round(b)))))
+    return cell, dist
+
+
+def _cell_reference(stat, members, vals):
+    """the statistic of the points of one cell (vals: exact rationals), None = reported as empty (NaN)"""
+    pts = [vals[i] for i in members]
+    if stat == "count":
+        return Fraction(len(pts))
+    if stat == "sum":
+        return sum(pts, Fraction(0))
+    if not pts:
+        return None
+    if stat == "average":
+        return sum(pts, Fraction(0)) / len(pts)
+    if stat == "min":
+        return min(pts)
+    if stat == "max":
+        return max(pts)
+    return max(pts, key=lambda v: (abs(v), v))      # abs_max: the value of largest magnitude (the positive one of +v / -v, as in run_area)
+
+
+def run_shared_data(ctx):
+    """several BucketResampler objects with DIFFERENT point->cell assignments (other geolocation of the same points, or an area of the same shape
+    placed elsewhere) bin the SAME dask data array, and all their statistics are evaluated together in ONE graph (one dask.compute call, or one
+    da.stack).  Every result must be the per-cell statistic of the resampler's OWN point cloud (empty cells empty), and equal the result of the
+    same getter evaluated alone.  Points are kept at least a tenth of a pixel away from every cell border (membership is certain)."""
+    import random
+
+    import dask
+    import dask.array as da
+    import pyproj
+    import xarray as xr
+    from pyresample.bucket import BucketResampler
+    from pyresample.geometry import AreaDefinition
+    r = random.Random(f"c07-shared-data-{ctx.seed}")
+    stats = ("min", "max", "abs_max", "sum", "count", "average")
+    for name, area in _areas(ctx):
+        W, H = area.width, area.height
+        size = W * H
+        x0, y0, x1, y1 = area.area_extent
+        dx, dy = area.pixel_size_x, area.pixel_size_y
+        inv = pyproj.Transformer.from_crs(area.crs.geodetic_crs, area.crs, always_xy=True)
+        with warnings.catch_warnings():
+            warnings.simplefilter("ignore")
+            proj_dict = dict(area.proj_dict)
+        for gi in range(1 if ctx.quick else 4):
+            n = r.choice([24, 40, 75])
+            U0 = np.array([r.randrange(-1, W + 1) + r.uniform(0.1, 0.9) for _ in range(n)])
+            V0 = np.array([r.randrange(-1, H + 1) + r.uniform(0.1, 0.9) for _ in range(n)])
+            perm = r.sample(range(n), n)
+            with warnings.catch_warnings():
+                warnings.simplefilter("ignore")
+                moved = AreaDefinition(name + "_moved", name, name, proj_dict, W, H, (x0 + dx, y0 - dy, x1 + dx, y1 - dy))
+            pool = [("base", area, U0, V0),
+                    ("one cell east and north", area, U0 + 1.0, V0 - 1.0),
+                    ("one cell west", area, U0 - 1.0, V0),
+                    ("points in another order", area, U0[perm], V0[perm]),
+                    ("independent cloud", area, np.array([r.uniform(0, W) for _ in range(n)]), np.array([r.uniform(0, H) for _ in range(n)])),
+                    ("same points, area of the same shape one pixel further", moved, U0, V0)]
+            chosen = [pool[0]] + (r.sample(pool[1:], 2) if ctx.quick else r.sample(pool[1:], r.choice([1, 2, 3, 5])))
+            r.shuffle(chosen)
+            clouds = []
+            ok = np.ones(n, bool)
+            for label, ar, U, V in chosen:
+                lons, lats = inv.transform(x0 + U * dx, y1 - V * dy, direction="INVERSE")
+                lons, lats = np.asarray(lons, float), np.asarray(lats, float)
+                ok &= np.isfinite(lons) & np.isfinite(lats) & (np.abs(lats) <= 90) & (np.abs(lons) <= 180)
+                clouds.append([label, ar, lons, lats])
+            for c in clouds:
+                _, dist = _cells_of(c[1], np.where(ok, c[2], 0.0), np.where(ok, c[3], 0.0))
+                ok &= np.array(dist) > 1e-6
+            n = int(ok.sum())
+            if n < 6:
+                ctx.count("shared.groups_skipped")
+                continue
+            members = []
+            for label, ar, lons, lats in clouds:
+                lons, lats = lons[ok], lats[ok]
+                cell, _ = _cells_of(ar, lons, lats)
+                members.append({"label": label, "area": ar, "lons": lons, "lats": lats, "cell": cell,
+                                "in_cell": [[i for i in range(n) if cell[i] == b] for b in range(size)]})
+            differ = len({tuple(m["cell"]) for m in members}) > 1
+            datasets = {k: v for k, v in _datasets(_RngOnly(r), n).items() if k in ("ints", "dyadic", "neg_only", "f32", "i16")}
+            dnames = sorted(datasets) if not ctx.quick else r.sample(sorted(datasets), 2)
+            for dname in dnames:
+                data = datasets[dname]
+                vals = _fl(data)
+                ch = r.choice([n, n // 3 + 1, 7])
+                ddata = da.from_array(data, chunks=ch)
+                container = r.choice(["dask", "dask", "xarray"])
+                arg = xr.DataArray(ddata, dims=("points",)) if container == "xarray" else ddata
+                mode = r.choice(["dask.compute", "dask.compute", "da.stack"])
+                lazies = []
+                with warnings.catch_warnings():
+                    warnings.simplefilter("ignore")
+                    for mi, m in enumerate(members):
+                        cch = r.choice([ch, n])
+                        m["coord_chunks"] = cch
+                        m["br"] = BucketResampler(m["area"], da.from_array(m["lons"], chunks=cch), da.from_array(m["lats"], chunks=cch))
+                        for stat in stats:
+                            lazies.append((mi, stat, getattr(m["br"], "get_" + stat)(*(() if stat == "count" else (arg,)))))
+                    r.shuffle(lazies)
+                    if mode == "dask.compute":
+                        together = dask.compute(*[lz[2] for lz in lazies])
+                    else:
+                        together = list(da.stack([lz[2] for lz in lazies]).compute())
+                inp = {"area": name, "proj": str(proj_dict), "shape": [H, W], "n": n, "data": dname, "values": [float(v) for v in data], "data_chunks": ch,
+                       "container": container, "evaluated": mode + " of all results below, in this order",
+                       "order": [[mi, stat] for mi, stat, _ in lazies],
+                       "resamplers": [{"what": m["label"], "extent": [float(v) for v in m["area"].area_extent], "coord_chunks": m["coord_chunks"],
+                                       "lons": [float(v) for v in m["lons"]], "lats": [float(v) for v in m["lats"]]} for m in members]}
+                brief = {k: v for k, v in inp.items() if k not in ("values", "resamplers", "order")}
+                brief["resamplers"] = [m["label"] for m in members]
+                for (mi, stat, lz), got in zip(lazies, together):
+                    m = members[mi]
+                    got = np.asarray(got, float)
+                    site = f"BucketResampler.get_{stat}"
+                    me = {"resampler": mi, "what": m["label"], "statistic": stat}
+                    multi = any(len(c) >= 2 for c in m["in_cell"])
+                    ctx.case("shared-data", (name, gi, dname, ch, container, mode, m["label"], stat, len(members)),
+                             nontrivial=differ and multi and -1 in m["cell"],
+                             sample={"input": {**brief, **me}, "result": got.ravel().tolist()} if stat == "abs_max" else None)
+                    ctx.count(f"shared.{stat}")
+                    ctx.count(f"shared.members.{len(members)}")
+                    ctx.count(f"shared.mode.{mode}")
+                    if tuple(got.shape) != (H, W):
+                        ctx.fail(site, "result does not have the area's shape", {**inp, **me}, list(got.shape), size=size)
+                        continue
+                    want = [_f(_cell_reference(stat, m["in_cell"][b], vals)) for b in range(size)]
+                    impl = [_f(v) for v in _fl(got)]
+                    bad = [b for b in range(size) if impl[b] != want[b]]
+                    if bad:
+                        b = bad[0]
+                        ctx.fail(site, f"{len(members)} resamplers over one data array, all results evaluated in one graph ({mode}): per-cell {stat} of resampler "
+                                 f"'{m['label']}' differs from that of the points of its own cloud in the cell (empty cells must be "
+                                 + ("0" if stat in ("sum", "count") else "NaN") + ")",
+                                 {**inp, **me}, {"cell": b, "impl": impl[b], "want": want[b], "points_in_cell": [float(vals[i]) for i in m["in_cell"][b]],
+                                                 "cells_differing": len(bad)}, tags={"shared_data": True, "statistic": stat}, size=size)
+                    if ctx.quick and stat in ("sum", "count", "average") and r.random() < 0.5:
+                        continue
+                    with warnings.catch_warnings():
+                        warnings.simplefilter("ignore")
+                        alone = np.asarray(lz.compute(), float)
+                    if alone.shape != got.shape or not np.array_equal(alone, got, equal_nan=True):
+                        ctx.fail(site, f"the {stat} of resampler '{m['label']}' evaluated together with the results of {len(members) - 1} other resamplers over the same data "
+                                 f"array ({mode}) differs from the same result evaluated alone", {**inp, **me},
+                                 {"together": got.ravel().tolist(), "alone": alone.ravel().tolist()}, tags={"shared_data": True, "statistic": stat, "oracle": "alone"}, size=size)
+            ctx.count("shared.groups")
+
+
+class _RngOnly:
+    """what _datasets needs of a context, with another random stream"""
+    quick = False
+
+    def __init__(self, rng):
+        self.rng = rng
+
+
 def run(ctx):
     import dask
     dask.config.set(scheduler="synchronous")
@@ -485,3 +662,4 @@ def run(ctx):
         run_area(ctx, name, area)
     for name, area in _areas(ctx):
         run_area_integer_fill(ctx, name, area)
+    run_shared_data(ctx)
